@@ -79,7 +79,8 @@ def main():
             fail = {'args': ['-r', 'Default', '-n', str(big)], 'stdin': '/dev/null', 'lines_written': len(ref), 'expected': big,
                     'first_lines': ref[:5]}
         if fail is None and a.fn == 'C09':
-            sweep = [1, 3, 333] if a.tier == 'quick' else [1, 2, 3, 5, 7, 11, 50, 333, 1000, 1999, 12345, big - 1]
+            # (1000 falls inside the first Markov level of Rules/Default, guesses 923..1287)
+            sweep = [1, 3, 333, 1000] if a.tier == 'quick' else [1, 2, 3, 5, 7, 11, 50, 333, 923, 1000, 1286, 1999, 12345, big - 1]
             for flags in (([], ['--skip_brute']) if a.tier == 'quick' else ([], ['--skip_brute'], ['--all_lower'])):
                 base = ref if not flags else lines_of(run(d, ['-r', 'Default', '-n', str(big)] + flags))
                 for n in sweep:
